@@ -2,6 +2,7 @@ import LlgoVerif.Util
 import LlgoVerif.Model.GoType
 import LlgoVerif.Model.Iface
 import LlgoVerif.Spec.TypeIdent
+import LlgoVerif.Lemmas.GoType
 /-! Line-protocol driver for C07 (executable only; SHA-256 and base64url live here, not in any theorem).
 
 Type terms (prefix notation, blank separated; `H` = hex of UTF-8 bytes, `-` = empty, `~` = absent):
@@ -14,8 +15,10 @@ N decl pkgH|~ nameH scope ntargs t…                     scope: g | s:i.j.k (in
 L nameH t                                               alias
 ```
 Requests:
-* `name T`                → `ok <hex TypeName>` | `unsupported`
-* `pair T | T`            → `<hex name1> <hex name2> <identical 0/1>` (names `unsupported` when not covered)
+(`V` = variant of structHash the tree implements: two digits, tags written? embedded names written?  `00` = pinned tree)
+* `name V T`              → `ok <hex TypeName>` | `unsupported`
+* `pair V T | T`          → `<hex name1> <hex name2> <identical 0/1> <fragment 0/1>` (names `unsupported` when not covered;
+                            fragment = the decidable hypotheses of `typeName_injective_partial` hold for the pair)
 * `impl t:(nameH typ ifn)… | v:(…)` or `| none`   → `<implScan> <newItabOk> <spec>`
 * `find v:(…) | nameH typ` → `<ifn> <matched>`
 * `implspec MSET | T`     → `<implements 0/1>`   (MSET is an `I` term holding the method set)
@@ -193,8 +196,22 @@ def parseWhole (toks : List String) : Option GoType :=
 def splitBar (toks : List String) : List String × List String :=
   (toks.takeWhile (· ≠ "|"), (toks.dropWhile (· ≠ "|")).drop 1)
 
-def nameOut (t : GoType) : String :=
-  if supported t then hexOfStr (nameC hashText false t) else "unsupported"
+/-- `token.IsExported` on ASCII names -/
+def exAscii (s : Str) : Bool := match s with | c :: _ => c.isUpper | [] => false
+
+/-- the decidable hypotheses of `typeName_injective_partial` -/
+def inFragment (cfg : Cfg) (t1 t2 : GoType) : Bool :=
+  wfT cfg exAscii t1 && wfT cfg exAscii t2 && tagsOk cfg t1 && tagsOk cfg t2 &&
+    decide (Coherent (declKeys t1 ++ declKeys t2))
+
+def cfgOf (v : String) : Option Cfg :=
+  match v with
+  | "00" => some ⟨false, false⟩ | "10" => some ⟨true, false⟩
+  | "01" => some ⟨false, true⟩ | "11" => some ⟨true, true⟩
+  | _ => none
+
+def nameOut (cfg : Cfg) (t : GoType) : String :=
+  if supported t then hexOfStr (nameC cfg hashText false t) else "unsupported"
 
 /-! ## method tables -/
 
@@ -224,15 +241,16 @@ def parseDesc : List String → Option Face.Desc
 
 def handle (line : String) : String :=
   match fields line with
-  | "name" :: toks =>
-    match parseWhole toks with
-    | some t => if supported t then "ok " ++ hexOfStr (nameC hashText false t) else "unsupported"
-    | none => "bad-op"
-  | "pair" :: toks =>
-    let (a, b) := splitBar toks
-    match parseWhole a, parseWhole b with
-    | some t1, some t2 => nameOut t1 ++ " " ++ nameOut t2 ++ " " ++ bstr (identical t1 t2)
+  | "name" :: v :: toks =>
+    match cfgOf v, parseWhole toks with
+    | some cfg, some t => if supported t then "ok " ++ hexOfStr (nameC cfg hashText false t) else "unsupported"
     | _, _ => "bad-op"
+  | "pair" :: v :: toks =>
+    let (a, b) := splitBar toks
+    match cfgOf v, parseWhole a, parseWhole b with
+    | some cfg, some t1, some t2 =>
+      nameOut cfg t1 ++ " " ++ nameOut cfg t2 ++ " " ++ bstr (identical t1 t2) ++ " " ++ bstr (inFragment cfg t1 t2)
+    | _, _, _ => "bad-op"
   | "impl" :: toks =>
     let (a, b) := splitBar toks
     match parseEnts (dropMark a) with
